@@ -447,7 +447,9 @@ func packDataOpt(options []EDNS0, msg []byte, off int) (int, error) {
 }
 
 func unpackStringOctet(msg []byte, off int) (string, int, error) {
-	s := string(msg[off:])
+	// The field holds presentation format text (see packOctetString and
+	// sprintTxtOctet), so a literal backslash has to be escaped.
+	s := strings.ReplaceAll(string(msg[off:]), `\`, `\\`)
 	return s, len(msg), nil
 }
 
